@@ -2,6 +2,7 @@ import J5V.Bcl.FmtProofs
 import J5V.Bcl.LexShapeProofs
 import J5V.Bcl.DescProofs
 import J5V.Generated.BcltokensFacts
+import J5V.Generated.BclunicodeFacts
 /-!
 # C09 — formatter preserves meaning, is idempotent and emits parseable source
 
@@ -230,6 +231,9 @@ theorem C09_src_tokenSource : tokenSourceCases =
 theorem C09_src_quoteString : quoteStringBody =
     "{ sb := &strings.Builder{} sb.WriteByte('\"') for _, r := range lit { switch r { case '\\\\', '\"', '\\n': sb.WriteByte('\\\\') } sb.WriteRune(r) } sb.WriteByte('\"') return sb.String() }" := by
   rfl
+/-- in Go's tables `' '` is white space (bit 1) — the classifier hypothesis of the DESCRIPTION and
+description-reflow theorems -/
+theorem C09_src_space_class : J5V.Generated.Bclunicode.asciiClass.getD 32 0 % 2 = 1 := by decide
 theorem C09_src_description : descriptionWordSplit = "strings.Fields(line)" ∧
     descriptionConds = ["strings.TrimSpace(line) == \"\"", "pend != \"\"",
       "!lastWasEmpty && len(linesOut) > 0", "pend == \"\"", "len(pend)+len(word) > maxWidth",
